@@ -303,7 +303,10 @@ Inductive mutop :=
 | MSetStr (s : list byte)           (* json_object_set_string_len *)
 | MSetDouble (bits : Z)             (* json_object_set_double: drops the retained text *)
 | MArrPut (i : Z) (v : jv)          (* json_object_array_put_idx: replaces, or extends with null slots *)
-| MArrDel (i : Z) (c : Z).          (* json_object_array_del_idx(i, c) *)
+| MArrDel (i : Z) (c : Z)           (* json_object_array_del_idx(i, c) *)
+(* process-wide settings changed at some point of a history; they address no node *)
+| MGlobalHash (h : Z)               (* json_global_set_string_hash(h): 0 = default, 1 = perl-like *)
+| MGlobalFormat (f : option (list byte)).  (* json_c_set_serialization_double_format(f, JSON_C_OPTION_GLOBAL) *)
 
 Fixpoint list_set {A} (l : list A) (i : nat) (x : A) : list A :=
   match l, i with
@@ -314,6 +317,8 @@ Fixpoint list_set {A} (l : list A) (i : nat) (x : A) : list A :=
 
 Definition apply_mut (m : mutop) (v : jv) : option jv :=
   match m, v with
+  | MGlobalHash h, _ => if (h =? 0) || (h =? 1) then Some v else None   (* the tree is not touched *)
+  | MGlobalFormat _, _ => Some v
   | MAppend x, JArr l => Some (JArr (l ++ [x]))
   | MPut k x, JObj l => Some (JObj (obj_add l k x))
   | MDel k, JObj l => Some (JObj (obj_del l k))
@@ -387,6 +392,35 @@ Definition mutop_wf (m : mutop) : Prop :=
   | MSetUint z => 0 <= z <= UINT64_MAX
   | _ => True
   end.
+
+(* ---- process-wide settings ----
+   The string hash selected by json_global_set_string_hash (captured by each object's table
+   when the table is created) and the global double format are state of the process, not of
+   a tree.  [run_history_g] threads that state through a history; json_object_equal and
+   json_object_deep_copy are modelled WITH the state as a parameter that they ignore
+   ([jv_equal_in], [deep_copy_in]): by construction nothing they return can depend on when,
+   between building, mutating, copying and comparing, a setting was changed
+   (EqProofs.settings_irrelevant). *)
+Record gstate := mk_g { g_str_hash : Z; g_dbl_format : option (list byte) }.
+Definition g_default : gstate := mk_g 0 None.
+Definition global_step (m : mutop) (g : gstate) : gstate :=
+  match m with
+  | MGlobalHash h => if (h =? 0) || (h =? 1) then mk_g h (g_dbl_format g) else g
+  | MGlobalFormat f => mk_g (g_str_hash g) f
+  | _ => g
+  end.
+Fixpoint run_history_g (g : gstate) (h : list (list step * mutop)) (v : jv) : (jv * list bool) * gstate :=
+  match h with
+  | [] => ((v, []), g)
+  | (p, m) :: t =>
+      let g' := global_step m g in
+      match mutate_at p m v with
+      | Some v' => let '((r, oks), g2) := run_history_g g' t v' in ((r, true :: oks), g2)
+      | None => let '((r, oks), g2) := run_history_g g' t v in ((r, false :: oks), g2)
+      end
+  end.
+Definition jv_equal_in (g : gstate) (a b : jv) : bool := jv_equal a b.
+Definition deep_copy_in (g : gstate) (a : jv) : jv := deep_copy a.
 
 (* ------------------------------------------------------------------ node addresses *)
 (* A tree as it lies in memory: every non-null node carries its address.  The same
